@@ -82,6 +82,7 @@ func h2Main(env *Env, c *H2Cfg, sh *h2Shared) {
 	tot := st.Total()
 	sh.total = tot
 	sh.doneNs = env.Sim.Now()
+	env.Sim.Quiesce()
 	time.Sleep(50 * time.Millisecond)
 	sh.leftover = leftoverF1(env.PreIDs)
 	sh.finished = true
